@@ -183,6 +183,24 @@ def power_window_rows():
     return rows
 
 
+def harvested_rows():
+    """Tick counts taken from the whole-number literals of ebb_calc's own source - c, 2c, 3c and
+    their neighbours: if the code cuts long moves into blocks, the block size is in its text."""
+    ebb_calc, _motion, _mp = _lib()
+    rows = []
+    for const in core.harvest_ints(ebb_calc, low=8, high=1 << 31):
+        for ticks in sorted({const - 1, const, const + 1, 2 * const - 1, 2 * const, 2 * const + 1,
+                             3 * const, 5 * const + 1}):
+            if not 1 <= ticks < (1 << 32):
+                continue
+            for rate, accel in ((1000, 0), (-7, 0), (3, 1), (123456, -3), (0, 1)):
+                if not lt_in_domain(rate, accel, ticks):
+                    continue
+                for accum in (core.RUNTIME_CLEAR, 5, TWO31 - 1):
+                    rows.append((rate, accel, ticks, accum))
+    return rows
+
+
 def _window_chunk(rows):
     part = core.Part()
     for rate, accel, ticks, accum in rows:
@@ -225,6 +243,7 @@ def run(ctx):
     longs = long_rows(rates, accums)
     part.merge(core.fan_out(ctx, _long_chunk, core.split(longs, 32)))
     part.merge(core.fan_out(ctx, _window_chunk, core.split(power_window_rows(), 32)))
+    part.merge(core.fan_out(ctx, _window_chunk, core.split(harvested_rows(), 8)))
     from .. import calcseq                 # pylint: disable=import-outside-toplevel
     part.merge(calcseq.explore(ctx, ['move_dist_lt']))
     cnt = part.counters
